@@ -85,14 +85,15 @@ TEXTS = {
         "technique": TECH,
     },
     "C06": {
-        "text": "Theorems (Properties/C06.v, about the Gallina transcription with the p-value in exact arithmetic): SampleSet size = number of "
-                "terms and count(g) = number of term-annotation links, every stored count positive (any term list); the exact tail is antitone "
-                "in k; the code's outer branches (x < min -> 1, x >= max -> 0). PARTIAL: the crate's f64 evaluation of the tail through "
-                "ln_gamma / ln / exp is not modelled bit for bit; spec_C06 decides per input that there is exactly one record per annotation "
-                "linked to a sample term, with k, with p within relative 1e-9 of the exact tail P[X >= k] for (N, K, n) recomputed from the "
-                "crate's own observation, p in [0,1], p antitone in k for equal K, and fold enrichment bit-exact (Flocq binary64); the "
-                "transcription (counts, wiring, fold) is diffed against the crate.",
-        "design_ref": "DESIGN.md §4 C06",
+        "text": "Theorems (Properties/C06.v, about the Gallina transcription with the p-value in exact arithmetic, unbounded): SampleSet size = "
+                "number of terms and count(g) = number of term-annotation links, every stored count positive; the model's binomial is Pascal's; "
+                "Vandermonde's identity; the exact p-value lies in [0,1] for every (N, K <= N, n <= N, k); the tail is antitone in k; at or "
+                "below the support the tail is 1 (the code's x < min branch), at or above max it is 0; the recurrences the check executes equal "
+                "the definitional tail for every population size. PARTIAL: the crate's f64 evaluation through ln_gamma / ln / exp (libm) is not "
+                "modelled bit for bit; spec_C06 decides per input: exactly one record per annotation linked to a sample term, with k, p within "
+                "relative 1e-9 of the exact tail P[X >= k] for (N, K, n) recomputed from the crate's own observation, p in [0,1] and antitone "
+                "in k on the crate's values, fold enrichment bit-exact (Flocq binary64); counts, wiring and fold are diffed against the crate.",
+        "design_ref": "DESIGN.md §4 C06, §9",
         "note": NOTE_COMMON + "Axioms: the four standard-library axioms behind Coq Reals (via Flocq's binary64 definitions used in the run file).",
         "technique": TECH,
     },
